@@ -143,6 +143,18 @@ def _retype(x, changed=None):
     return out
 
 
+def _scribble(x):
+    """The caller goes on using a dict it passed in (or was handed): every level gets an edit. The store must not follow."""
+    if isinstance(x, dict):
+        for v in list(x.values()):
+            _scribble(v)
+        x["edited by the caller afterwards"] = 1
+    elif isinstance(x, list):
+        for v in x:
+            _scribble(v)
+        x.append("edited by the caller afterwards")
+
+
 def _check_state(ds, model, events, viols, where):
     try:
         listing = ds.buckets()
@@ -161,10 +173,12 @@ def _check_state(ds, model, events, viols, where):
                 viols.append(("metadata-name-differs", f"{where} bucket={bid!r} via {src}: want={want['name']!r} got={md.get('name')!r}"))
             if canon(md.get("data")) != canon(want["data"]):
                 viols.append(("metadata-data-differs", f"{where} bucket={bid!r} via {src}: want={canon(want['data'])[:200]} got={canon(md.get('data'))[:200]}"))
+            created_text = md.get("created")
+            _scribble(md)       # a description that was handed out is the caller's: the next one must not show these edits
             try:
-                created = dt_us(iso8601.parse_date(md.get("created")))
+                created = dt_us(iso8601.parse_date(created_text))
             except Exception as ex:  # noqa: BLE001
-                viols.append(("metadata-created-unparsable", f"{where} bucket={bid!r}: {md.get('created')!r} ({ex})"))
+                viols.append(("metadata-created-unparsable", f"{where} bucket={bid!r}: {created_text!r} ({ex})"))
                 continue
             if want["created"] is None:
                 want["created"] = created
@@ -245,6 +259,7 @@ def run_case(case, ctx):
                         kw["created"] = mk_dt(*s["created"])
                         created = s["created"][0]
                     h = ds.create_bucket(bid, **kw)
+                    _scribble(data)
                     handles.setdefault(bid, h)
                     model[bid] = dict(id=bid, type=s["type"], client=s["client"], hostname=s["hostname"],
                                       name=s.get("name"), data=s.get("data") or {}, created=created)
@@ -272,7 +287,10 @@ def run_case(case, ctx):
                             ctx.count("updates_without_any_field.refused")
                         ctx.count("updates_without_any_field")
                     elif live:
-                        ds.update_bucket(bid, **copy.deepcopy(f))
+                        passed = copy.deepcopy(f)
+                        ds.update_bucket(bid, **passed)
+                        _scribble(passed.get("data"))
+                        ctx.count("arguments_edited_by_the_caller_after_the_call")
                         m = model[bid]
                         for key, val in f.items():
                             m["type" if key == "type_id" else key] = val
